@@ -109,6 +109,19 @@ fn main() {
                 }
             }
         }
+        "diag" => {
+            // dev helper: every diagnostic (errors and warnings) the checker reports for an ST file
+            let text = std::fs::read_to_string(&args[2]).expect("read source");
+            let mut db = trust_hir::db::Database::new();
+            let f = trust_hir::db::FileId(0);
+            trust_hir::db::SourceDatabase::set_source_text(&mut db, f, text);
+            if args.get(3).map(String::as_str) == Some("--tree") {
+                println!("{:#?}", trust_syntax::parser::parse(&std::fs::read_to_string(&args[2]).unwrap()).syntax());
+            }
+            for d in trust_hir::db::SemanticDatabase::diagnostics(&db, f).iter() {
+                println!("{} error={} {:?}", d, d.is_error(), d.range);
+            }
+        }
         "c05child" => {
             let variant: u64 = args.get(3).and_then(|s| s.parse().ok()).unwrap_or(1);
             checks::c05::child_main(&args[2], variant);
